@@ -1301,6 +1301,42 @@ impl Scenario for StatsTruth {
     }
     fn make(&self, seed: u64, case: u64, tier: Tier) -> Trial {
         let mut rng = Rng::new(seed);
+        // streams beyond 4 GiB of payload (counters wider than 32 bits): quick 2 cases, thorough 1 in 4000
+        let huge = match tier {
+            Tier::Quick => case == 1000 || case == 3000,
+            Tier::Thorough => case % 4000 == 1000,
+        };
+        if huge {
+            let n = rng.range(20, 60) as usize;
+            let nl = rng.range(1, 3) as usize;
+            let base = gen_arbitrary(&mut rng, n, 64, nl);
+            // every payload 9000..10000 bytes; sane, ITS, constant version: no fatal, no init failure
+            let sizes: Vec<usize> = (0..n).map(|_| rng.range(9000, 10_000) as usize).collect();
+            let input = rebuild_stream(&base, &mut |i, r, payload| {
+                payload.resize(sizes[i], 0x11);
+                r.header_size = 0x40;
+                r.system_id = 0x20;
+                r.priority = 0;
+                r.rdh0_reserved = 0;
+            });
+            let w = walk(&input);
+            let v0 = w.pkts.first().map(|p| p.rdh.version).unwrap_or(7);
+            let input = rebuild_stream(&input, &mut |_, r, _| r.version = v0);
+            let per: u64 = walk(&input).pkts.iter().map(|p| (p.rdh.memory_size - 64) as u64).sum();
+            // just beyond 2^32, or well beyond
+            let rep = (1u64 << 32) / per.max(1) + if rng.chance(1, 2) { 1 } else { rng.range(2, 40) };
+            let mode = if rng.chance(1, 2) { CHECK_MODES[0] } else { CHECK_MODES[2] };
+            let mut parts = s(mode);
+            parts.extend(s(&["-m", "-S", "@STATS@", "-D", "json"]));
+            let mut spec = specgen::spec(InputMode::Pipe, &parts, input);
+            spec.input_repeat = Some(rep);
+            spec.stats_ext = "json".into();
+            let packets = n as u64 * rep;
+            spec.step_budget = 20_000_000 + packets * 12;
+            spec.expected_steps = packets * 3;
+            spec.timeout_ms = 600_000;
+            return Trial::StatsTruth { spec, analysed: true, label: format!("{} | stream beyond 4 GiB", mode.join(" ")) };
+        }
         let n = packet_count(&mut rng, tier).min(3000);
         let nl = rng.range(1, 6) as usize;
         let corpus_pick = if case % 10 == 9 { crate::corpus::pick(&mut rng, 300_000, true) } else { None };
